@@ -76,6 +76,10 @@ def tokenize(
                 else:
                     yield token
                     token = Token(source=formula)
+            elif not quote_context:
+                # Empty quotes: discard the (empty) token, which otherwise
+                # passes its kind and source position on to the next token.
+                token = Token(source=formula)
             continue
         if quote_context and char == quote_context[-1]:
             token.update(char, i)
